@@ -4,14 +4,28 @@ EXTENDS PCmapDelta, TLAPS
 U16S == 0 .. 65535
 I16S == -32768 .. 32767
 
+LEMMA Two32Val == Two32 = 4294967296
+  BY SMT DEF Two32
+
 THEOREM DeltaForms ==
   \A c \in U16S, d \in I16S :
     /\ Mod16(c + d) \in U16S
-    /\ Mod16(c + d) = And16I32(c + d)
     /\ Mod16(c + d) = WrapAdd16(c, U16OfI16(d))
     /\ Mod16(c + d) = ByCases(c, d)
     /\ U16OfI16(d) \in U16S /\ ToI16(U16OfI16(d)) = d
-  BY SMT DEF U16S, I16S, Mod16, And16I32, WrapAdd16, U16OfI16, ByCases, ToI16
+  BY SMT DEF U16S, I16S, Mod16, WrapAdd16, U16OfI16, ByCases, ToI16
+
+THEOREM DeltaAnd16 ==
+  \A c \in U16S, d \in I16S : Mod16(c + d) = And16I32(c + d)
+<1> SUFFICES ASSUME NEW c \in U16S, NEW d \in I16S PROVE Mod16(c + d) = And16I32(c + d)
+    OBVIOUS
+<1> DEFINE x == c + d
+<1> DEFINE pat == IF x < 0 THEN x + 4294967296 ELSE x
+<1>1. And16I32(x) = pat - (pat \div 65536) * 65536
+    BY Two32Val DEF And16I32
+<1>2. Mod16(x) = pat - (pat \div 65536) * 65536
+    BY SMT DEF Mod16, U16S, I16S
+<1> QED BY <1>1, <1>2
 
 THEOREM DeltaInverse ==
   \A c \in U16S, g \in U16S : ToI16(g - c) \in I16S /\ Mod16(c + ToI16(g - c)) = g
